@@ -227,7 +227,7 @@ func hardKey(n *node, seen map[*node]bool) bool {
 
 // implOnly: the value holds something the model does not cover
 func implOnly(n *node) bool {
-	if n.kind == "tdef" || n.kind == "o" || (n.kind == "l" && n.lk == "td") {
+	if n.kind == "tdef" || n.kind == "o" {
 		return true
 	}
 	for _, k := range n.kids {
